@@ -1,16 +1,18 @@
 """C06 — channel predicates decide by definition; built-in channels are what they claim.
 
 Kind 3 (boolean predicates with tolerances) on a *ground-truth catalogue*: every map is built so that its status for each
-predicate is a theorem about the construction (unitary conjugations, rational convex mixtures of Hilbert-Schmidt orthogonal
-unitaries, Stinespring isometries with d_in != d_out, the same scaled by c != 1, CP plus margin * (negative rank one),
-X -> AXB^+ + BXA^+ and X -> AXB^+ with A != B, transpose, X -> -X, X -> X - 2 diag X, reduction maps, amplitude damping,
-Watrous' Example 2.33, reset and partial-trace channels, depolarizing / dephasing), the same verdict is re-derived from the
-definition by boring arithmetic (mc/ref/c06_maps.truth: loops over the operator basis, eigvalsh / svd of the reference Choi
-matrix) with an explicit margin status, and the full product
-        catalogue  x  representation {flat, nested, row, pairs, linearly dependent list, Choi (+ dim / sys variants)}  x  predicate
-is executed.  Built-in constructors are compared with their closed formulas written entry by entry (no Kraus operators) on
-all basis inputs E_ij and i*E_ij over parameter grids that contain both end points, and values just outside a documented
-range must be rejected.
+predicate is a theorem about the construction (unitary conjugations d in {2,3,4}; rational convex mixtures of Hilbert-Schmidt
+orthogonal and of generic unitaries; Stinespring isometries with d_in != d_out; the same scaled by c != 1; CP plus
+margin * (negative rank one), with and without trace compensation; X -> AXB^+ + BXA^+ and X -> AXB^+ with A != B;
+X -> UXV^+ with two different unitaries; a CP map plus a strictly-upper-triangular Choi entry; transpose; X -> -X;
+X -> X - 2 diag X; reduction maps k Tr(X) I - X; amplitude damping; Watrous' Example 2.33; reset and partial-trace channels;
+depolarizing / dephasing from Weyl operators).  The same verdicts are re-derived from the definitions by boring arithmetic
+(mc/ref/c06_maps.truth: loops over the operator basis, eigvalsh / svd of the reference Choi matrix) with an explicit margin
+status, construction claims and arithmetic must agree on every case (else harness error), and the full product
+   catalogue  x  representation {flat, nested, row, pairs, linearly dependent list, Choi (+ dim / sys=1 variants)}  x  predicate
+is executed against toqito.  Built-in constructors are compared with their closed formulas written entry by entry (no Kraus
+operators) on all basis inputs E_ij and i*E_ij over parameter grids that contain both end points; every predicate is asked
+about the object each constructor returns; values just outside a documented range must be rejected.
 """
 
 from __future__ import annotations
@@ -38,11 +40,16 @@ ASSUMPTIONS = [
     "predicates are asserted only on margin cases: the definition is satisfied to <= 1e-10 or violated by >= 1e-3 (>= 100 x rtol=1e-5 "
     "on O(1) entries); cases inside the band are reported as indeterminate; is_extremal (tol=1e-9 on singular values) needs >= 1e-4 or <= 1e-11",
     "choi_rank uses numpy's default rank tolerance (~N*eps*s_max): non-zero singular values of every catalogue map are >= 1e-3, zero ones are rounding noise",
-    "a bare Choi matrix with d_in != d_out does not determine a map; predicates without a `dim` argument (is_quantum_channel, "
-    "is_trace_preserving without dim, is_unital without dim) are not asked about such a matrix; is_extremal is, and a deliberate ValueError counts as rejected",
-    "is_extremal is asked only about quantum channels (CP and TP), is_positive accepts either answer on positive-but-not-CP maps",
-    "dims bounded: d in {1..3} (quick) / {1..4} (thorough) for Stinespring / pair maps, unitary conjugations d in {2,3,4}; Kraus rank <= 4 (16 for Weyl mixtures)",
-    "only square input/output spaces (rectangular left/right pairs belong to C04)",
+    "a bare Choi matrix with d_in != d_out does not determine a map: predicates without a `dim` argument (is_quantum_channel, "
+    "is_trace_preserving / is_unital without dim) are not asked about such a matrix; is_extremal is called to count deliberate rejections "
+    "but a verdict about the square map it guesses is not judged; is_unitary must answer False (documented)",
+    "is_extremal is asked only about quantum channels (CP and TP); is_positive accepts either answer on positive-but-not-CP maps and on "
+    "non-CP maps for which no catalogue ket gives a non-positivity witness with margin",
+    "a Kraus list is an accepted representation whether or not its operators are linearly independent (flat_dup = sqrt(1/3) K_t, i sqrt(2/3) K_t; "
+    "lists with zero operators): the verdict is a property of the map",
+    "dims bounded: d in {1..3} (quick) / {1..4} (thorough) for Stinespring / pair / reset maps, unitary conjugations and mixtures d in {2,3,4}; "
+    "Kraus rank <= 4 (d^2 for Weyl families); built-ins: dim <= 4 (5 thorough), Pauli channels on 1-2 (3 thorough) qubits",
+    "only square input/output spaces (rectangular left/right pairs belong to C04); default rtol/atol only",
 ]
 
 PREDICATES = ("is_completely_positive", "is_herm_preserving", "is_trace_preserving", "is_unital", "is_unitary", "is_quantum_channel",
@@ -88,7 +95,7 @@ def map_specs(tier):
     for b in bases:
         for c in ([1, 2], [2, 1], [501, 500]):
             out.append({"kind": "scaled", "base": b, "c": c})
-    for d in (2, 3):
+    for d in (2, 3) + ((4,) if th else ()):
         uv = list(itertools.permutations(R.WEYL_KEYS, 2)) + [("g0", "g1"), ("F", "g0")]
         for u, v in uv:
             for m in ([3, 10], [1, 500]):
@@ -96,9 +103,9 @@ def map_specs(tier):
                     out.append({"kind": "notcp", "d": d, "u": u, "v": v, "m": m, "tp": tp})
     for din, dout in sorted(itertools.product(D, D), key=lambda s: (max(s), s)):
         for fam in ("s", "g"):
-            for k in (0, 1):
+            for k in (0, 1) + ((2, 3) if th else ()):
                 out.append({"kind": "hp_pair", "din": din, "dout": dout, "fam": fam, "k": k})
-            for r in (1, 2):
+            for r in (1, 2) + ((3,) if th else ()):
                 out.append({"kind": "nonhp_pair", "din": din, "dout": dout, "fam": fam, "k": 0, "r": r})
     for d, u, vs in ((2, "H", ("S", "neg", "iU", "g0")), (3, "F", ("XZ", "neg", "iU")), (2, "I", ("Z", "ph"))):
         for v in vs:
@@ -124,10 +131,10 @@ def map_specs(tier):
     for g, p in (([3, 10], [1, 4]), ([1, 2], [1, 2])):
         out.append({"kind": "gad", "g": g, "p": p})
     out.append({"kind": "watrous233"})
-    for din, dout in itertools.product((1, 2, 3), repeat=2):
-        for ket in ("e0", "g0"):
+    for din, dout in itertools.product(D, repeat=2):
+        for ket in ("e0", "g0") + (("g1", "ramp") if th and dout > 1 else ()):
             out.append({"kind": "reset", "din": din, "dout": dout, "ket": ket})
-    for da, db in ((2, 2), (1, 2), (2, 1), (2, 3), (3, 2)):
+    for da, db in ((2, 2), (1, 2), (2, 1), (2, 3), (3, 2)) + (((4, 2), (3, 3), (1, 4)) if th else ()):
         out.append({"kind": "ptrace", "da": da, "db": db})
     return out
 
@@ -142,6 +149,11 @@ def reps_for(m, pred):
             reps.append("flat+dim")
     else:
         reps += ["pairs"]
+    if pred == "is_extremal" and "pairs" in reps:
+        # is_extremal documents flat and nested lists "which will be flattened"; [[A, A]] is therefore the two-operator list
+        # {A, A}, not a left/right pair.  The pairs reading is not an accepted representation of this predicate: not judged
+        # (coordinator's triage of the builder's proposed fix 2, see DESIGN corrections log).
+        reps.remove("pairs")
     if pred == "is_trace_preserving":
         reps += (["choi", "choi+dimint"] if eq else []) + ["choi+dim", "choi_sys1"]
     elif pred == "is_unital":
@@ -217,6 +229,10 @@ def predicate_check(case):
             return rejected("is_extremal has no dim argument: Choi matrix with d_in != d_out refused: " + exc_text(exc))
         return viol(f"{pred} raised on the {rep} representation of {spec['kind']} ({din}->{dout}): " + exc_text(exc),
                     site=site + ":exception", observed="exception", expected=R_json(expected))
+    if pred == "is_extremal" and rep == "choi" and din != dout:
+        # a bare Choi matrix with d_in != d_out does not determine the map and is_extremal has no `dim` argument: the call is
+        # made to record a deliberate rejection, a verdict about whatever square map the function guessed is not judged
+        return ok(False, obs=bool(val), note="bare Choi matrix with unequal dimensions: outside the quantifier's domain")
     if expected is None:
         if pred == "is_positive":
             return ok(False, obs=bool(val), note="positive but not CP: either answer accepted")
